@@ -964,12 +964,13 @@ impl TextPane for Buffer {
                     }
                 }
                 crate::Mode::Chars => {
-                    if !ch.is_transparent() {
+                    // layers are looked at topmost first: the first override found is the one that is shown
+                    if ch_opt.is_none() && !ch.is_transparent() {
                         ch_opt = Some(ch.ch);
                     }
                 }
                 crate::Mode::Attributes => {
-                    if ch.is_visible() {
+                    if attr_opt.is_none() && ch.is_visible() {
                         attr_opt = Some(ch.attribute);
                     }
                 }
